@@ -53,6 +53,13 @@ func (b *fakeBackend) clearPlan(hash string)      { b.mu.Lock(); delete(b.plans,
 func (b *fakeBackend) put(o *object)              { b.inner.SetRaw(o.kind, o.hash, o.stored, o.size()) }
 func (b *fakeBackend) remove(o *object)           { b.inner.Delete(o.kind, o.hash) }
 
+func (b *fakeBackend) forget(hash string) {
+	for _, k := range []cache.EntryKind{cache.CAS, cache.AC, cache.RAW} {
+		b.inner.Delete(k, hash)
+	}
+	b.clearPlan(hash)
+}
+
 func (b *fakeBackend) holds(o *object) ([]byte, bool) {
 	if !b.inner.Has(o.kind, o.hash) {
 		return nil, false
